@@ -43,12 +43,11 @@ def job_ops(job, plan):
     blk = rng.choice([1, 100, 1000, 1000, 8192, 50000])
     blk = max(blk, N // 400 + 1)
     big = est + 100
-    for i in range(N // blk + 2):
+    for i in range(N // blk + 2 if not job["nodrain"] else max(0, N // blk - 1)):
         ol = rng.choice([big, big, max(1, est // 7), 0])
         ops.append("feed %d %d %d" % (blk, ol, rng.below(2) if ol else 0))
-    ops += ["feed %d %d 0" % (N, big)]
     if not job["nodrain"]:
-        ops += ["drain %d" % max(rng.choice([1, 100, est]), est // 1000 + 1), "feed 5 100 0"]
+        ops += ["feed %d %d 0" % (N, big), "drain %d" % max(rng.choice([1, 100, est]), est // 1000 + 1), "feed 5 100 0"]
     ops.append("hash")
     return ops
 
